@@ -13,7 +13,8 @@ StructuredTopology._basis_spline  1-D, degree 1..3, 1..4 elements, every multipl
                                ndofs; element e touches p+1 consecutive dofs starting at the multiplicity prefix sum, modulo the period for a
                                periodic axis (wrap-around of the last p - m0 + 1 .. dofs); dofs in range; get_support is the inverse; and every
                                local knot vector handed to _localsplinebasis is the MULTIPLICITY-EXPANDED knot vector around the element
-                               (wrapped knots shifted by the period) -- exact arithmetic on small-integer knot values
+                               (wrapped knots shifted by the period) -- exact arithmetic on small-integer knot values; the start/stop tables handed to
+                               StructuredBasis satisfy the invariant its get_support contract assumes (non-decreasing, 0 <= start, stop[-1] >= ndofs, p+1 per element)
 """
 from pyvc.native import NativeBounded
 
@@ -54,7 +55,8 @@ class SplineDofs(NativeBounded):
     label = 'native-enumeration'
     call = 'spline_dofs()'
     bounded = 'exhaustive native enumeration: 1-D, degree 1..3, 1..4 elements, all knot multiplicities in 1..p+1, uniform and non-uniform integer knots, periodic and not (1260 cases)'
-    clauses = ('number-of-dofs', 'element-touches-p+1-consecutive-dofs-modulo-the-period', 'dofs-in-range', 'support-is-the-inverse-of-the-dof-lists', 'local-knot-vectors-are-multiplicity-expanded')
+    clauses = ('number-of-dofs', 'element-touches-p+1-consecutive-dofs-modulo-the-period', 'dofs-in-range', 'support-is-the-inverse-of-the-dof-lists', 'local-knot-vectors-are-multiplicity-expanded',
+               'tables-satisfy-the-invariant-assumed-for-StructuredBasis')
 
 
 # candidate defect (notes/C12-c12b.md, D3): with exactly two elements in a periodic direction the two elements share TWO interfaces and
